@@ -74,6 +74,17 @@ static void case_c04(const args_t *a, long c, rng_t *r)
 		mtbl_res res = mtbl_iter_next(mi.it, &k, &lk, &v, &lv);
 		if (res == mtbl_res_success) viol("C04/merge-failure-not-surfaced", "merge function returned failure for key %s but next returned success (key %s)", hexs(mc.fail_key, mc.fail_len), hexs(k, lk));
 		else if (!mc.failures_returned) viol("C04/merge-failure-not-surfaced", "next failed at key index %zu before the merge function was consulted for the failing key", fail_idx);
+		if (res != mtbl_res_success) {
+			/* failure is sticky until the next seek: no partially folded entry may leak out */
+			if (mtbl_iter_next(mi.it, &k, &lk, &v, &lv) == mtbl_res_success)
+				viol("C04/entry-returned-after-merge-failure-without-seek", "after the merge function failed for key %s the next call returned key %s with %zu value bytes", hexs(mc.fail_key, mc.fail_len), hexs(k, lk), lv);
+			/* the application retries: one-off failure over, seek back to the key -> full fold */
+			mc.have_fail = 0;
+			mi.failed = true;
+			miter_seek(&mi, f.merged.e[fail_idx].k.p, f.merged.e[fail_idx].k.n, "retry-after-merge-failure");
+			miter_next(&mi, "retry-after-merge-failure"); miter_next(&mi, "retry-after-merge-failure");
+			STAT("c04.retry_after_merge_failure");
+		}
 		miter_close(&mi);
 		STAT("c04.failing_callback_cases");
 	}
@@ -151,12 +162,25 @@ static void case_c04t(const args_t *a, long c, rng_t *r)
 }
 
 /* ---- C05 */
+static mclos_t *g_c05_mc; static uint8_t g_failkey[4096]; static uint64_t g_fail_before;
+static int arm_merge_failure(const uint8_t *key, size_t lk)
+{
+	if (!g_c05_mc) return 0;
+	if (!key) { g_c05_mc->have_fail = 0; return 1; }
+	if (lk > sizeof g_failkey) return 0;
+	memcpy(g_failkey, key, lk);
+	g_c05_mc->fail_key = g_failkey; g_c05_mc->fail_len = lk; g_c05_mc->have_fail = 1;
+	g_fail_before = g_c05_mc->failures_returned;
+	return 1;
+}
+static int merge_failure_fired(void) { int f = g_c05_mc->failures_returned != g_fail_before; g_c05_mc->have_fail = 0; return f; }
+
 static void c05_common(const args_t *a, long c, rng_t *r, int which)
 {
 	g_prop = "C05";
 	family_t f;
 	int dupsort = rndn(r, 4) == 0;      /* 3/4 with the merge function, 1/4 dupsort (deterministic order among equal keys) */
-	family_gen(r, &f, a->workdir, c, dupsort ? 2 : 1, which == 1, dupsort);
+	family_gen(r, &f, a->workdir, c, 2, which == 1, dupsort);
 	family_stats(&f);
 	mclos_t mc; memset(&mc, 0, sizeof mc); mc.universe = &f.universe;
 	struct mtbl_merger *m = mk_merger(&f, &mc, dupsort ? 2 : 0);
@@ -189,7 +213,9 @@ static void c05_common(const args_t *a, long c, rng_t *r, int which)
 			if (want_sample()) sample("c05x: %d sources, %zu model entries, max multiplicity %zu (%s): full (position,target) product for %zu bounds", f.nsrc, model->n, f.max_mult, dupsort ? "dupsort" : "merge function", nb);
 		}
 	} else {
+		if (!dupsort) { g_c05_mc = &mc; g_arm_merge_failure = arm_merge_failure; g_merge_failure_fired = merge_failure_fired; }
 		for (int i = 0; i < 3; i++) suite_history(src, model, r, 40 + rndn(r, 161));
+		g_arm_merge_failure = NULL; g_c05_mc = NULL;
 		if (want_sample()) sample("c05h: %d sources, %zu model entries (%s): 3 histories of 40..200 ops on up to 4 interleaved merger iterators", f.nsrc, model->n, dupsort ? "dupsort" : "merge function");
 	}
 	if (mc.operand_errors) viol("C05/merge-callback-got-foreign-or-stale-operand", "%" PRIu64 " merge callback operands were not id lists of the key being merged", mc.operand_errors);
